@@ -172,7 +172,7 @@ class Builder:
     def merge(self, cond, env_a, env_b, base_env):
         """merge two branch environments into self.env with ite"""
         out = {}
-        for k in set(env_a) | set(env_b):
+        for k in dict.fromkeys(list(env_a) + list(env_b)):      # insertion order: deterministic output
             a = env_a.get(k)
             b = env_b.get(k)
             if a is None or b is None:
